@@ -631,7 +631,11 @@ def sequence_cases(draw):
 
 def unknown_cases():
     return [{'what': 'unknown-ext', 'name': n, 'kindname': k}
-            for n, k in (('out.foo', 'foo'), ('out', 'jpg'), ('out.', ''), ('out.svgx', 'svgx'), ('out.pn', 'pn'), ('png', 'gif'), ('out.PDFX', 'PDFX'))]
+            for n, k in (('out.foo', 'foo'), ('out', 'jpg'), ('out.', ''), ('out.svgx', 'svgx'), ('out.pn', 'pn'), ('png', 'gif'), ('out.PDFX', 'PDFX'),
+                         # characters which case-fold / normalise to the letters of a known extension
+                         ('out.\u017fvg', '\u017fvg'), ('out.ep\u017f', 'ep\u017f'), ('out.an\u017f', 'an\u017f'), ('out.\u017fvgz', '\u017fvgz'),
+                         ('out.\uff50\uff4e\uff47', '\uff50\uff4e\uff47'), ('out.p\u00adng', 'p\u00adng'),
+                         ('out.t\u2093t', 't\u2093t'), ('out.pd\u1da0', 'pd\u1da0'), ('out.svg\u200b', 'svg\u200b'))]
 
 
 def kind_grid():
